@@ -23,6 +23,7 @@ pub mod coll;
 pub mod tags;
 pub mod lexrep;
 pub mod loc;
+pub mod textcodec;
 
 // ------------------------------------------------------------------ PRNG (splitmix64)
 #[derive(Clone)]
